@@ -40,7 +40,9 @@ func TestC09(t *testing.T) {
 			}
 			last = now
 		}
-		w.C.BlockHook = func() { check("across a block boundary (EndBlock+BeginBlock) reaching height " + sdk.NewInt(int64(w.C.Height())).String()) }
+		w.C.BlockHook = func() {
+			check("across a block boundary (EndBlock+BeginBlock) reaching height " + sdk.NewInt(int64(w.C.Height())).String())
+		}
 		acts := fullAlphabet(w, chain.RelayOpts{SessionPool: 0, PastEpochs: true, Qos: true, QosExcellence: true, Unresponsive: true})
 		// accounts that keep (almost) no liquid balance: a delegator bonds nearly everything it has,
 		// so later payouts/claims meet balances smaller than the amounts moved
